@@ -358,6 +358,9 @@ type vfExchange struct {
 	GoAwayLast int            `json:"goAwayLast"` // index into streams opened so far (-1: last-stream-id 0)
 	GoAwayCode uint32         `json:"goAwayCode"`
 	Cuts       [2][]int       `json:"cuts"` // per direction: byte offsets where a Read/Write call ends
+	// TimeoutReads: ordinals (mod 16) of Read calls that hand over their bytes together with a timeout error, as a
+	// net.Conn does when a read deadline passes after part of the data arrived; the connection carries on
+	TimeoutReads []int `json:"timeoutReads"`
 }
 
 type vfAbsFrame struct {
@@ -685,6 +688,7 @@ func vfRunExchange(ex vfExchange, cuts [2][]int) ([]Trace, error) {
 	if ex.Server {
 		readDir = 0
 	}
+	readNo := 0
 	flush := func(dir int) error {
 		for len(pending[dir]) > 0 {
 			end := len(pending[dir])
@@ -695,11 +699,18 @@ func vfRunExchange(ex vfExchange, cuts [2][]int) ([]Trace, error) {
 			chunk := pending[dir][:end]
 			if dir == readDir {
 				inner.inbound = append(inner.inbound, chunk...)
-				inner.readSteps = append(inner.readSteps, vfConnStep{N: len(chunk)})
+				step := vfConnStep{N: len(chunk)}
+				for _, o := range ex.TimeoutReads {
+					if o == readNo%16 {
+						step.Err = "timeout"
+					}
+				}
+				readNo++
+				inner.readSteps = append(inner.readSteps, step)
 				buf := make([]byte, len(chunk))
 				n, err := conn.Read(buf)
-				if err != nil || n != len(chunk) || !bytes.Equal(buf[:n], chunk) {
-					return verifkit.Violf("conn-not-transparent", "Read returned (%d, %v), want the %d scripted bytes", n, err, len(chunk))
+				if (err != nil) != (step.Err != "") || (err != nil && err != vfStepErr(step.Err)) || n != len(chunk) || !bytes.Equal(buf[:n], chunk) {
+					return verifkit.Violf("conn-not-transparent", "Read returned (%d, %v), want the %d scripted bytes and error %q", n, err, len(chunk), step.Err)
 				}
 			} else {
 				n, err := conn.Write(chunk)
@@ -1126,6 +1137,11 @@ func vfGenExchange(t *rapid.T) vfExchange {
 	for d := 0; d < 2; d++ {
 		for i, k := 0, rapid.IntRange(0, 6).Draw(t, "nrandcuts"); i < k && off[d] > 1; i++ {
 			ex.Cuts[d] = append(ex.Cuts[d], rapid.IntRange(1, off[d]-1).Draw(t, "randcut"))
+		}
+	}
+	if rapid.IntRange(0, 2).Draw(t, "timeoutReads") == 0 {
+		for i, k := 0, rapid.IntRange(1, 6).Draw(t, "ntimeouts"); i < k; i++ {
+			ex.TimeoutReads = append(ex.TimeoutReads, rapid.IntRange(0, 15).Draw(t, "timeoutRead"))
 		}
 	}
 	if rapid.IntRange(0, 9).Draw(t, "bytewise") == 0 {
